@@ -40,6 +40,7 @@ type MetaPtr struct {
 	Root   types.Type    // type of the root location (Alloc elem / field type / cell type / elem type / global type)
 	Path   []Step
 	Guard  *Term // optional: nil-check already emitted
+	Multi  *multiPtr // PMulti: the alternatives of a conditional pointer
 }
 
 type Closure struct {
